@@ -164,9 +164,8 @@ def showRun {S : Type} (r : Run S) : String :=
 
 def oracle (k : Nat) : Nat := k * 7919 + 13
 
-/-- a request is a boundary case when `trunc when ≤ now_at_call` -/
-def Table.classify (tb : Table) : String :=
-  let r := Vm.run tb.env oracle tb.ticks ()
+/-- size information of a run for the evidence (executions, largest number of tasks in one sample) -/
+def runInfo {S : Type} (r : Run S) : String :=
   let total := (r.ticks.map (·.execd.length)).foldl (· + ·) 0
   let maxTick := (r.ticks.map (·.execd.length)).foldl max 0
   s!"execs={total};maxpertick={maxTick}"
